@@ -10,7 +10,8 @@ adv=(" Assume the property is being checked by a thorough machine: the library i
      "positions, curve results just below the field prime with every limb pattern, MAC keys whose precomputed powers sit at limb boundaries, forged signatures "
      "built consistently around altered commitments or with S + k*L for every k, stream counters just before every byte carry, in-place calls on messages up to 1 MiB, "
      "every optional (NULL-able) output pointer form, single calls producing more than 2^38 bytes, password hashing over more than 4 GiB in every backend, "
-     "hash strings produced by other implementations (long salts/tags), allocation-size products that wrap to mappable sizes, and documented macros expanded with compound expressions. Choose a trigger that such a checker is UNLIKELY to generate: a rare "
+     "hash strings produced by other implementations (long salts/tags), allocation-size products that wrap to mappable sizes, documented macros expanded with compound expressions, memory locking and getrandom denied by the "
+     "sandbox (also under threads), thousands of consecutive rejected random draws, and block sizes of several pages for padding. Choose a trigger that such a checker is UNLIKELY to generate: a rare "
      "conjunction of conditions, a very large or unusual parameter value, a rarely used entry point, option or state, a long-running or cumulative condition.")
 for k in sys.argv[1:]:
     prevs=[json.load(open(f))['needs_to_manifest'] for f in sorted(glob.glob(f'/verif/seeded/{k}-*/meta.json'))]
